@@ -23,6 +23,17 @@ def map_json(x, rho):
     return x
 
 
+def order_kept(names, renames):
+    """the renames, applied one after the other, map the names injectively and keep their order"""
+    cur = {n: n for n in names}
+    for old, new in renames:
+        for k, v in cur.items():
+            if v == old:
+                cur[k] = new
+    imgs = [cur[n] for n in sorted(names)]
+    return imgs == sorted(imgs) and len(set(imgs)) == len(imgs)
+
+
 class C17(InterpProp):
     id = 'C17'
     quick_cases = 1500
@@ -40,7 +51,8 @@ class C17(InterpProp):
     def knobs(self, rnd, tier):
         return gen.Knobs(p_internal=0.3, p_history=0.5, max_states=rnd.choice([6, 10, 16]), time_preds=0.1,
                          no_state_names=True, history_focus=0.4, twins=0.25, atwins=rnd.choice([0, 0, 0.15]),
-                         contracts=rnd.choice([0.0, 0.0, 0.4]), cflags=0)
+                         contracts=rnd.choice([0.0, 0.0, 0.4]), cflags=0, odd_names=rnd.choice([0, 0, 0.4]),
+                         p_orth=rnd.choice([0.3, 0.6]))
 
     # ---- generation -------------------------------------------------------------------------------
     def gen_case(self, rnd, tier):
@@ -66,9 +78,19 @@ class C17(InterpProp):
                 i = rnd.randrange(0, len(srt) - 1)
                 j = rnd.randrange(i + 1, min(len(srt), i + 4))
                 renames = [[srt[j], srt[j] + '!']] + [[srt[t], srt[t + 1]] for t in range(j - 1, i - 1, -1)]
+                if not order_kept(names, renames):
+                    renames = None
             else:
+                renames = None
+            if renames is None:
+                # (the relabelling keeps the order of the names — the interpreter breaks ties by name: a rename that
+                #  would jump over another name, 'bq' -> 'bq!' beside 'bq !', is left out)
                 chosen = rnd.sample(names, rnd.randint(1, max(1, len(names) // 2)))
-                renames = [[n, n + rnd.choice(['!', '!!', '!0'])] for n in chosen]
+                renames = []
+                for n in chosen:
+                    rn = [n, n + rnd.choice(['!', '!!', '!0'])]
+                    if order_kept(names, renames + [rn]):
+                        renames.append(rn)
             payload = {'mode': 'rename', 'renames': renames, 'warm': rnd.random() < 0.5}
             charts = [sc]
         else:
@@ -185,7 +207,8 @@ class C17(InterpProp):
                 q = {k: v for k, v in p.items() if k not in ('cases', 'rho', 'edit_ok')}
                 q = copy.deepcopy(q)
                 del q['renames'][i]
-                yield q
+                if order_kept([st['name'] for st in p['chart0']['states']], q['renames']):
+                    yield q
 
     # ---- oracle -----------------------------------------------------------------------------------
     def oracle(self, case, obs, res):
